@@ -51,6 +51,8 @@ func main() {
 			checkC18(c)
 		case "C19":
 			checkC19(c)
+		case "C20":
+			checkC20(c)
 		case "C09":
 			wireCheck(c, "C09", false, nil)
 		case "C10":
